@@ -21,7 +21,7 @@ REPO = os.environ.get("VERIF_REPO", "/repo")
 SRC = os.path.join(REPO, "src")
 HARN = os.path.join(VERIF, "harness")
 MODELS = os.path.join(VERIF, "models")
-EVID = os.path.join(VERIF, "evidence")
+EVID = os.environ.get("VERIF_EVIDENCE_DIR") or os.path.join(VERIF, "evidence")   # seeded-change runs write elsewhere
 REPLAY_DIR = os.path.join(EVID, "replay")
 KNOWN = os.path.join(VERIF, "known-findings.txt")
 NJOBS = int(os.environ.get("VERIF_JOBS", "16"))
@@ -174,6 +174,26 @@ class Job:
         return cmd
 
 
+class ProbeJob(Job):
+    """Length-truncation probe (bug hunting, DESIGN 12.2(13)): symbolic LENGTH, loops cut by --partial-loops, only the
+    narrowing-conversion checks are read.  `confirm` = (harness, defines, native_srcs, length_macro): on a hit the
+    solver's length is compiled into that ordinary harness and run natively on random data."""
+    kind = "cbmc"
+    probe = True
+
+    def __init__(self, name, harness, defines, cbmc_srcs, confirm, facet="", timeout=600, config="default"):
+        Job.__init__(self, name, harness, defines, cbmc_srcs, [], backend="sat", unwind=3, timeout=timeout, config=config, facet=facet)
+        self.confirm = confirm
+
+    def cbmc_cmd(self, trace_prop=None):
+        cmd = ["cbmc"] + self.incflags() + self.dflags() + [self.harness] + self.cbmc_srcs
+        cmd += ["--unwind", "3", "--partial-loops", "--conversion-check", "--no-standard-checks", "--drop-unused-functions",
+                "--object-bits", "10"]
+        if trace_prop:
+            cmd += ["--property", trace_prop, "--trace", "--json-ui"]
+        return cmd
+
+
 class CmdJob:
     """A query decided by one of the Python symbolic executors; prints one JSON object."""
     kind = "cmd"
@@ -267,6 +287,20 @@ def run_cbmc(job):
     if rc == "timeout":
         res["status"] = "INCONCLUSIVE"
         res["why"] = "timeout after %ds" % job.timeout
+        return res
+    if getattr(job, "probe", False):
+        for line in out.splitlines():
+            m = RE_PROP.match(line)
+            if m:
+                pid, desc, st = m.groups()
+                res["nprops"] += 1
+                if st == "FAILURE" and "type conversion" in desc and not re.search(r"\((uint8_t|unsigned char|signed char|char|_Bool)\)", desc):
+                    res["failed"].append((pid, desc))
+        if "VERIFICATION" not in out:
+            res["status"] = "INCONCLUSIVE"
+            res["why"] = "probe did not finish: " + out[-300:]
+        else:
+            res["status"] = "FAIL" if res["failed"] else "PASS"
         return res
     witness = None
     unwind_fail = []
@@ -486,8 +520,43 @@ def native_run(exe, replay=None, seed=0, timeout=20):
     return "CRASH", out      # signal / abort: memory error in the real code
 
 
+def confirm_probe(job, prop, res):
+    pid, desc = res["failed"][0]
+    vals = extract_inputs(job, pid) or {}
+    n = vals.get("len")
+    path = write_replay(job, prop, pid, desc, vals)
+    info = {"replay": path, "assert": "%s %s" % (pid, desc), "reproduced": False, "how": ""}
+    if not isinstance(n, int):
+        info["how"] = "probe hit, but no length in the trace"
+        return info
+    harness, defines, nsrcs, macro = job.confirm
+    cands = sorted(set([n, (n | 3), n + 1, n + 4]))
+    for ln in cands:
+        if ln > (1 << 26):
+            continue
+        d = dict(defines)
+        d[macro] = ln
+        j2 = Job(job.name + "-confirm", harness, d, [], nsrcs, config=job.config)
+        exe = native_build(j2)
+        if not exe:
+            info["how"] = "native build of the confirmation harness failed"
+            return info
+        for seed in (1, 2, 3):
+            st, out = native_run(exe, None, seed, timeout=300)
+            if st in ("FAIL", "CRASH", "HANG"):
+                with open(path, "a") as f:
+                    f.write("#confirmed natively with %s=%d seed=%d: %s\n" % (macro, ln, seed, out.strip()[-200:]))
+                info.update(reproduced=True, how="narrowing conversion loses bits at length %d (solver); native %s with %s=%d: %s %s"
+                            % (n, os.path.basename(harness), macro, ln, st, out.strip()[-160:]))
+                return info
+    info["how"] = "conversion can lose bits at length %d, but the native round trip / conformance run did not fail" % n
+    return info
+
+
 def confirm(job, prop, res, neighbours=64):
     """Replay the solver's counterexample on the natively built real library."""
+    if getattr(job, "probe", False):
+        return confirm_probe(job, prop, res)
     failed = res["failed"] or res.get("unwind_failed", [])
     pid, desc = failed[0]
     vals = extract_inputs(job, pid)
@@ -571,7 +640,9 @@ def run_property(prop, tier, jobs, meta, only=None):
         # the interpretation of the uninterpreted permutation (e.g. SIV with an empty plaintext)
         sh = r.get("shape") or {}
         size = sum(int(v) for k, v in sh.items() if k in ("MLEN", "ADLEN", "N", "SIZE", "LEN", "OUTLEN", "REQ", "PLEN") and str(v).isdigit())
-        return (size, r.get("wall_s", 0), r["name"])
+        # functional assertions of the harness first, CBMC's pointer-primitive complaints (NULL comparisons etc.) last
+        functional = any(".assertion." in a[0] for a in (r.get("failed") or []))
+        return (0 if functional else 1, size, r.get("wall_s", 0), r["name"])
 
     for r in sorted(results, key=replay_order):
         if r["status"] == "PASS":
@@ -586,7 +657,7 @@ def run_property(prop, tier, jobs, meta, only=None):
                 continue
             if job.kind == "cbmc":
                 nrep = sum(1 for _, i in violations if i.get("replayed"))
-                if nrep >= 2 or nconfirm >= 10:
+                if nrep >= 2 or nconfirm >= 14:
                     # enough counterexamples replayed; the remaining failed queries are listed, not replayed
                     info = {"reproduced": nrep > 0, "replayed": False, "replay": violations[0][1]["replay"] if violations else "",
                             "assert": "%s %s" % asserts[0], "how": "query failed; not replayed (other counterexamples of this run were)"}
